@@ -4,7 +4,8 @@ Conventions (DESIGN.md 3 and 4/C09):
   complete position c = (x,y,z) + (shift_x,shift_y,shift_z)
   out-of-bounds:   kept  <=>  every component of c - b >= 0  and of  c + b < dim(own tomogram);  b = 0 | ceil(box/2)
   trimming:        x' = x - (start - 1);  kept  <=>  1 <= x' <= end - start + 1 on all axes  (x,y,z only, shifts untouched)
-  reference points removed <=> some point of the same tomogram at Euclidean distance <= radius of c (ties excluded)
+  reference points removed <=> some point of the same tomogram at Euclidean distance <= radius of c (inclusive: exact
+                   ties d^2 == r^2 are removed; near-but-not-exact ties |d-r| < 1e-6 are out of domain)
   tomogram mask:   voxel index = trunc(c); removed <=> tomogram listed, 0 <= index < mask shape on all axes, mask voxel == 0
 """
 import collections
@@ -157,19 +158,53 @@ def trim_expected(arr, start, end):
 
 
 # ---- reference points -----------------------------------------------------------------------------
+def exact_tie(p, q, r):
+    """True iff |p-q|^2 == r^2 holds EXACTLY: the rational value of the float inputs agrees and every float
+    operation of the straightforward evaluation (differences, squares, partial sums, r*r) is exact, so any
+    implementation that compares d^2 with r^2 (or d with r) in float64 sees the same equality."""
+    from fractions import Fraction as Fr
+    d2, fsum = Fr(0), 0.0
+    for a in range(3):
+        pa, qa = float(p[a]), float(q[a])
+        df = qa - pa
+        if Fr(df) != Fr(qa) - Fr(pa):
+            return False
+        sq = df * df
+        if Fr(sq) != Fr(df) ** 2:
+            return False
+        d2 += Fr(sq)
+        fsum += sq
+        if Fr(fsum) != d2:
+            return False
+    r = float(r)
+    r2 = r * r
+    return Fr(r2) == Fr(r) ** 2 and d2 == Fr(r2)
+
+
 def dist_expected(arr, feat, pts_xyz, pts_feat, radius):
-    """-> (removed mask, smallest | distance - radius | over all same-group particle/point pairs)."""
+    """-> (removed mask, smallest |distance - radius| over the same-group pairs that are NOT exact ties, #exact ties).
+    "within the radius" is inclusive: an exact tie (d^2 == r^2 in exact arithmetic) is removed."""
     pos = positions(arr)
     removed = np.zeros(len(arr), dtype=bool)
     margin = np.inf
+    ties = 0
     for i in range(len(arr)):
         q = pts_xyz[pts_feat == feat[i]]
         if len(q) == 0:
             continue
         d = np.sqrt(((q - pos[i]) ** 2).sum(axis=1))
-        margin = min(margin, float(np.abs(d - radius).min()))
-        removed[i] = bool((d <= radius).any())
-    return removed, margin
+        close = np.abs(d - radius) < 1e-6
+        inside = d <= radius
+        for j in np.nonzero(close)[0]:
+            if exact_tie(pos[i], q[j], radius):
+                ties += 1
+                inside[j] = True
+            else:
+                margin = min(margin, float(abs(d[j] - radius)))
+        if (~close).any():
+            margin = min(margin, float(np.abs(d[~close] - radius).min()))
+        removed[i] = bool(inside.any())
+    return removed, margin, ties
 
 
 # ---- masks ----------------------------------------------------------------------------------------
